@@ -136,24 +136,6 @@ theorem noListKvs_norm : ∀ (a : List (Key × Val)), noListKvs (normKvs a) = tr
   | (k, x) :: xs => by simp [normKvs, noListKvs, noList_norm x, noListKvs_norm xs]
 end
 
-mutual
-theorem loadsOk_norm : ∀ (v : Val), loadsOk (norm v) = loadsOk v
-  | .nil => rfl
-  | .bool _ => rfl
-  | .int _ => rfl
-  | .float _ => rfl
-  | .str _ => rfl
-  | .bin _ => rfl
-  | .arr _ xs => by simp [norm, loadsOk, loadsOkList_norm xs]
-  | .map xs => by simp [norm, loadsOk, loadsOkKvs_norm xs]
-theorem loadsOkList_norm : ∀ (a : List Val), loadsOkList (normList a) = loadsOkList a
-  | [] => rfl
-  | x :: xs => by simp [normList, loadsOkList, loadsOk_norm x, loadsOkList_norm xs]
-theorem loadsOkKvs_norm : ∀ (a : List (Key × Val)), loadsOkKvs (normKvs a) = loadsOkKvs a
-  | [] => rfl
-  | (k, x) :: xs => by simp [normKvs, loadsOkKvs, loadsOk_norm x, loadsOkKvs_norm xs]
-end
-
 theorem norm_truthy (v : Val) : (norm v).truthy = v.truthy := by
   cases v with
   | arr l xs => cases xs <;> simp [norm, normList, Val.truthy]
